@@ -61,7 +61,7 @@ def body(run):
     sel_full = cl.pick(sorted(full, key=lambda b: len(b["steps"])), run.pick(2, 20), run.seed,
                        key=lambda b: (json.dumps(sorted(b["full"])), b["lpc"], b["mux"]))
     run.cov["behaviours_full_channel"] = len(full)
-    sel_mon, mon_sits = cl.pick_mon(res[7].rows, run.pick(3, 30), run.seed)
+    sel_mon, mon_sits = cl.pick_mon(res[7].rows, run.pick(4, 30), run.seed)
     run.cov["monitor_situations_covered"] = mon_sits
     cases, scripts = [], {}
     for kind, sel, tries in (("stuck", sel_stuck, 2), ("lost", sel_lost, 6), ("full", sel_full, 3), ("norm", sel_norm, 3), ("mon", sel_mon, 2)):
